@@ -14,7 +14,13 @@ func rhAdjustRun(f int, maxItems []int, mode int) {
 	req := symOriginal(f)
 	r := collectCreateContainerResult(req)
 	n := len(maxItems)
-	ps := symPlugins(n)
+	var ps []string
+	if mode == 1 {
+		// two different plugins are different even when they registered under the same index and name
+		ps = symPluginsAnyNames(n)
+	} else {
+		ps = symPlugins(n)
+	}
 	var prev [][]sItem
 	for j := 0; j < n; j++ {
 		cur := symItems(f, maxItems[j])
@@ -166,4 +172,73 @@ func H_C02_update2same() {
 func H_C02_update3() {
 	k, i := instance()/20, instance()%20
 	rhUpdateRun(k, []int{resFams[i], resFams[(i+1)%20], resFams[i]}, []int{1, 1, 1}, 2, 2)
+}
+
+// rhAdjustCross: plugin j sets one item of scalar resource family fams[j] in a creation adjustment;
+// different fields never conflict, whatever their order (C02), same field always does (C01).
+func rhAdjustCross(fams []int, mode int) {
+	for _, f := range fams {
+		shape("fam=" + famNames[f])
+	}
+	req := symOriginal(fams[0])
+	r := collectCreateContainerResult(req)
+	ps := symPlugins(len(fams))
+	for j, f := range fams {
+		cur := symItems(f, 1)
+		err := r.apply(&CreateContainerResponse{Adjust: buildAdjust(f, cur)}, ps[j])
+		conflictExpected := false
+		for i := 0; i < j; i++ {
+			if fams[i] == f && len(cur) > 0 {
+				conflictExpected = true
+			}
+		}
+		_ = conflictExpected
+		if mode == 2 {
+			distinct := true
+			for i := 0; i < j; i++ {
+				if fams[i] == f {
+					distinct = false
+				}
+			}
+			if distinct {
+				cover("conflict-free")
+				vassert(err == nil, "spurious-conflict-between-different-fields")
+			}
+		}
+		if err != nil {
+			return
+		}
+	}
+}
+
+var scalarResFams = [...]int{famMemLimit, famMemReservation, famMemSwap, famMemKernel, famMemKernelTcp, famMemSwappiness, famMemDisableOom,
+	famMemUseHierarchy, famCpuShares, famCpuQuota, famCpuPeriod, famCpuRtRuntime, famCpuRtPeriod, famCpuCpus, famCpuMems, famPids, famBlockio, famRdt,
+	famCgroupsPath, famOom}
+
+// H_C02_adjust_cross: every ordered pair of distinct scalar fields (20 x 19), one per plugin, in a creation
+// request: never a conflict. instance = first field; the second is chosen.
+//verif:property C02
+//verif:instances 20
+//verif:expect-cover conflict-free
+func H_C02_adjust_cross() {
+	i := instance()
+	j := choose(19)
+	if j >= i {
+		j++
+	}
+	rhAdjustCross([]int{scalarResFams[i], scalarResFams[j]}, 2)
+}
+
+// H_C02_update_cross: as H_C02_adjust_cross for updates of one target (18 resource fields that updates carry).
+//verif:property C02
+//verif:instances 18
+//verif:expect-cover conflict-free
+func H_C02_update_cross() {
+	i := instance()
+	j := choose(17)
+	if j >= i {
+		j++
+	}
+	k := choose(3)
+	rhUpdateRun(k, []int{scalarFams[i], scalarFams[j]}, []int{1, 1}, 0, 2)
 }
